@@ -22,6 +22,7 @@ import (
 	"fmt"
 	"strings"
 	"sync"
+	"sync/atomic"
 	"time"
 
 	"github.com/lorenzodonini/ocpp-go/ocpp"
@@ -786,6 +787,67 @@ func gatedSimultaneousTimeouts() []int64 {
 	return []int64{0, int64(c), served}
 }
 
+// emptyGate is a request queue whose IsEmpty can be held: the point at which the pump has decided to look at the queue
+// but has not dispatched yet.
+type emptyGate struct {
+	ocppj.RequestQueue
+	armed   int32
+	entered chan struct{}
+	release chan struct{}
+}
+
+func (g *emptyGate) IsEmpty() bool {
+	if atomic.CompareAndSwapInt32(&g.armed, 1, 0) {
+		close(g.entered)
+		<-g.release
+	}
+	return g.RequestQueue.IsEmpty()
+}
+
+// scenario 21 (C02, C10; finding F16): the connection drops and comes back while the pump is about to dispatch a request
+// it has just been told about.  The request must be written once.
+func gatedReconnectRacingSend() []int64 {
+	installIDGen()
+	fake := fakews.NewClient()
+	g := &emptyGate{RequestQueue: ocppj.NewFIFOClientQueue(0), entered: make(chan struct{}), release: make(chan struct{})}
+	disp := ocppj.NewDefaultClientDispatcher(g)
+	disp.SetTimeout(time.Hour)
+	cl := ocppj.NewClient("cp1", fake, disp, nil, core16.Profile)
+	cl.SetResponseHandler(func(r ocpp.Response, id string) {})
+	cl.SetErrorHandler(func(e *ocpp.Error, d interface{}) {})
+	cl.SetRequestHandler(func(r ocpp.Request, id, action string) {})
+	cl.SetOnRequestCanceled(func(id string, r ocpp.Request, e *ocpp.Error) {})
+	if err := cl.Start("ws://fake"); err != nil {
+		return []int64{-2}
+	}
+	time.Sleep(10 * time.Millisecond)
+	atomic.StoreInt32(&g.armed, 1)
+	setNextID("81")
+	if err := cl.SendRequest(core16.NewDataTransferRequest("v1")); err != nil {
+		return []int64{-3}
+	}
+	select {
+	case <-g.entered: // the pump is about to dispatch 81
+	case <-time.After(2 * time.Second):
+		return []int64{-4}
+	}
+	ok := within(2*time.Second, func() { fake.Drop() }) && within(2*time.Second, func() { fake.Reconnect() })
+	close(g.release)
+	if !ok {
+		return []int64{-8}
+	}
+	if !waitFor(3*time.Second, clientWrote(fake, 81)) {
+		return []int64{-8}
+	}
+	time.Sleep(40 * time.Millisecond)
+	n := fake.CountWritten(func(d []byte) bool { return callID(d) == 81 })
+	within(2*time.Second, cl.Stop)
+	if n == 1 {
+		return []int64{1, 0}
+	}
+	return []int64{0, int64(n)}
+}
+
 func gatedEval(in []int64) []int64 {
 	switch in[0] {
 	case 7:
@@ -810,6 +872,8 @@ func gatedEval(in []int64) []int64 {
 		return gatedConclusionOrder()
 	case 20:
 		return gatedSimultaneousTimeouts()
+	case 21:
+		return gatedReconnectRacingSend()
 	}
 	return []int64{-1}
 }
